@@ -210,7 +210,7 @@ impl ListenerSession {
 //@@ fn file=fe2o3-amqp/src/acceptor/session.rs impl=`impl endpoint::Session for ListenerSession` name=on_incoming_attach
 //@@ ret Result<(), SessionInnerError>
 //@@ subst `|_v0|` => `|_v0: ChanSendError|` rule=optional-R5
-//@@ subst `attach.handle.clone().into()` => `InputHandle::from(attach.handle.clone())` rule=R16
+//@@ subst `attach.handle.clone().into()` => `InputHandle::from(attach.handle.clone())` rule=optional-R16
 //@@ subst `self.pending_link_flows.entry(input_handle).or_default();` => `pending_note(&mut self.pending_link_flows, input_handle);` rule=optional-R15
 //@@ spec
     ensures
